@@ -88,11 +88,24 @@ def roundHalfEven (x : Rat) : Int :=
   let r := x - (f : Rat)
   if r < 1/2 then f else if r > 1/2 then f + 1 else if f % 2 = 0 then f else f + 1
 
-/-- `population`: `round(average expected demand / R)` -/
+/-- `population`: `round(average expected demand / R)`.
+DOC misc.py:41-43 "Compute population per node, rounded to the nearest integer" /
+`.. math:: pop=\dfrac{Average\ expected\ demand}{R}`; resilience.rst:323-325 "divides the average expected demand by
+the average volume of water consumed per capita per day" -/
 def population (avg R : Rat) : Option Int := (divz avg R).map roundHalfEven
+
+/-- `population_impacted`: the population of the nodes (node-time pairs) where the comparison holds.
+DOC misc.py:68-70 "Computes population impacted using comparison operators. For example, this can be used to find the
+population impacted when demand < 90% expected."; resilience.rst:321-323 -/
+def populationImpacted (mask : Bool) (pop : Rat) : Rat := if mask then pop else 0
 
 /-! ### hydraulic metrics on one row (= one time) of the results tables -/
 
+/-- DOC hydraulic.py:121 `.. math:: WSA = \dfrac{demand}{expected\_demand}`; :129-131 "If expected demand is 0 for a
+particular junction, water service availability will be set to NaN for that junction." (`none` here);
+resilience.rst:284 "the ratio of delivered demand to the expected demand".
+CODE vs DOC: `demand.div(expected_demand)` gives NaN only for 0/0; a non-zero demand over a zero expected demand is
+±inf (finding `water_service_availability-zero-expected-inf`, fixes/C20-wsa-zero-expected-nan.patch) -/
 def wsa (demand expected : Rat) : Option Rat := divz demand expected
 
 structure JRow where  -- junction: demand, head, pressure
@@ -109,7 +122,12 @@ structure PRow where  -- pump: flowrate, head at start node, head at end node
 
 def rabs (x : Rat) : Rat := if x < 0 then -x else x
 
-/-- Todini index  (Σ d·h − Σ d·(P* + z)) / (Σ_res −d·h + Σ_pumps q·|Δh| − Σ d·(P* + z)),  z = h − p -/
+/-- Todini index  (Σ d·h − Σ d·(P* + z)) / (Σ_res −d·h + Σ_pumps q·|Δh| − Σ d·(P* + z)),  z = h − p.
+DOC hydraulic.py:174-179 "Compute Todini index, equations from :cite:p:`todi00`. ... defines resilience at a specific
+time as a measure of surplus power at each node and measures relative energy redundancy"; resilience.rst:288-291.
+The cited equation (Todini 2000, eq. 10) is  I_r = Σ_i q_i (h_i − h_i*) / (Σ_k Q_k H_k + Σ_j P_j/γ − Σ_i q_i h_i*)
+with h_i* = P* + elevation_i, Q_k H_k the power fed by reservoir k (its demand is negative: −d·h) and P_j/γ = q_j·|Δh_j|
+the (non-negative) power of pump j.  No formula is printed in the WNTR documentation itself. -/
 def todini (pstar : Rat) (js : List JRow) (rs : List RRow) (ps : List PRow) : Option Rat :=
   let pout := lsum (js.map fun j => j.d * j.h)
   let pexp := lsum (js.map fun j => j.d * (pstar + (j.h - j.p)))
@@ -117,7 +135,12 @@ def todini (pstar : Rat) (js : List JRow) (rs : List RRow) (ps : List PRow) : Op
   let pinPump := lsum (ps.map fun p => p.q * rabs (p.he - p.hs))
   divz (pout - pexp) (pinRes + pinPump - pexp)
 
-/-- modified resilience index per junction: ((p + z) − (P* + z)) / (P* + z) -/
+/-- modified resilience index per junction: ((p + z) − (P* + z)) / (P* + z).
+DOC hydraulic.py:234-239 "Compute the modified resilience index, equations from :cite:p:`jasr08`. The modified resilience
+index is the total surplus power available at demand junctions as a percentage of the total minimum required power at
+demand junctions. The metric can be computed as a timeseries for each junction or as a system average timeseries.";
+resilience.rst:294-296.  Jayaram & Srinivasan (2008): MRI = Σ_j q_j (h_j − h_j*) / Σ_j q_j h_j* (× 100).
+DOC observation: "as a percentage" — the code (and this definition) return the FRACTION, not × 100. -/
 def mriJunction (pstar p z : Rat) : Option Rat := divz ((p + z) - (pstar + z)) (pstar + z)
 
 /-- system MRI over rows (demand, pressure, elevation) -/
@@ -164,7 +187,10 @@ def tankVolume (pi : Rat) (g : TankGeom) (level : Rat) : Rat :=
   | .cyl d => pi / 4 * d ^ 2 * level
   | .curve pts => interpX pts level
 
-/-- tank capacity = stored volume / volume at `max_level` -/
+/-- tank capacity = stored volume / volume at `max_level`.
+DOC hydraulic.py:290-291 "Compute tank capacity, the ratio of water volume stored in tanks to the maximum volume of
+water that can be stored."; resilience.rst:299-301 "... ranges between 0 and 1. A value of 1 indicates that tank
+storage is maximized, while a value of 0 means there is no water stored in the tank." -/
 def tankCapacity (pi : Rat) (g : TankGeom) (maxLevel level : Rat) : Option Rat :=
   divz (tankVolume pi g level) (tankVolume pi g maxLevel)
 
@@ -173,11 +199,19 @@ def tankCapacity (pi : Rat) (g : TankGeom) (maxLevel level : Rat) : Option Rat :
 def gAcc : Rat := 981 / 100
 def rho : Rat := 1000
 
-/-- power (W) = 1000 · 9.81 · Δh · q / (efficiency% / 100) -/
+/-- power (W) = 1000 · 9.81 · Δh · q / (efficiency% / 100).
+DOC economic.py:255-260 "The computation uses pump flow rate, node head (used to compute headloss at each pump), and
+pump efficiency. Pump efficiency is defined in ``wn.options.energy.global_efficiency``. ...
+wn.options.energy.global_efficiency = 75 # This means 75% or 0.75"; :278 "pump power in W"; resilience.rst:523-526.
+No formula is printed; ρ·g·ΔH·Q/η is the hydraulic power the text describes (the "headloss" is the head GAIN). -/
 def pumpPower (q hs he effPercent : Rat) : Option Rat :=
   divz (rho * gAcc * (he - hs) * q) (effPercent / 100)
 
+/-- DOC economic.py:313 "Compute the pump energy over time." :338 "pump energy in J"; code comment `# J = Ws` -/
 def pumpEnergy (power reportStep : Rat) : Rat := power * reportStep
+/-- DOC economic.py:350-353 "Energy cost is defined in ``wn.options.energy.global_price``. Pump energy price and price
+patterns are currently not supported. wn.options.energy.global_price = 3.61e-8  # $/J"; :367 "pump cost in $".
+DOC observation: a pump's own `energy_price` IS used by the code when set (only price PATTERNS raise). -/
 def pumpCost (energy price : Rat) : Rat := energy * price
 
 /-! ### nearest-entry lookup and the annual totals -/
@@ -225,16 +259,28 @@ def itemCost (pi : Rat) (t : CostTables) : CostItem → Rat
   | .pump p => lookup t.pump p
   | .prv d => lookup t.prv d
 
+/-- DOC economic.py:15-18 "Compute annual network cost :cite:p:`sokz12`. Use the closest value from the lookup tables to
+compute annual cost for each component in the network."; resilience.rst:512-516.
+DOC observation: the PRV table header says "Annual Cost ($/m/yr)" (economic.py:67) but a valve is charged per piece. -/
 def annualNetworkCost (pi : Rat) (t : CostTables) (items : List CostItem) : Rat :=
   lsum (items.map (itemCost pi t))
 
-/-- `annual_ghg_emissions`: Σ table[nearest diameter] · length over pipes -/
+/-- `annual_ghg_emissions`: Σ table[nearest diameter] · length over pipes.
+DOC economic.py:196-199 "Compute annual greenhouse gas emissions :cite:p:`sokz12`. Use the closest value in the lookup
+table to compute annual GHG emissions for each pipe in the network." (table in kg-CO2-e/m/yr) -/
 def annualGhg (t : List (Rat × Rat)) (pipes : List (Rat × Rat)) : Rat :=
   lsum (pipes.map fun (d, l) => lookup t d * l)
 
 /-- documented maximum power of a head pump with a LINEAR curve `H = A − B·q` (`C = 1`):
 `g·ρ/eff · q*·(A − B·q*)` at `q* = A/(2B)` -/
 def pmaxLinear (a b eff : Rat) : Rat := gAcc * rho / eff * (a / (2 * b)) * (a - b * (a / (2 * b)))
+
+/-- the documented maximum power of a head pump, VERBATIM, over uninterpreted `exp`, `ln` and `^`:
+DOC economic.py:89 `.. math:: Pmp = g*rho/eff*exp(ln(A/(B*(C+1)))/C)*(A - B*(exp(ln(A/(B*(C+1)))/C))^C)` with
+:93-96 "g is acceleration due to gravity (9.81 m/s^2), rho is the density of water (1000 kg/m^3), eff is the global
+efficiency (0.75 default), A, B, and C are the pump curve coefficients." -/
+def pmaxDoc (exp ln : Rat → Rat) (rpow : Rat → Rat → Rat) (a b c eff : Rat) : Rat :=
+  gAcc * rho / eff * exp (ln (a / (b * (c + 1))) / c) * (a - b * rpow (exp (ln (a / (b * (c + 1))) / c)) c)
 
 /-- the documented `Pmp` for a general exponent, in floating point (executable oracle only) -/
 def pmaxFloat (a b c eff : Float) : Float :=
